@@ -4,6 +4,7 @@ import (
 	"bytes"
 	"errors"
 	"fmt"
+	"io"
 
 	gots "github.com/Comcast/gots/v2"
 	"github.com/Comcast/gots/v2/psi"
@@ -59,7 +60,7 @@ func (c06) Info() core.Info {
 			"descriptor bodies are compared through the decoders for the decodable kinds; opaque descriptors by tag only (the API exposes no raw body)",
 			"after an injected reader error ReadPMT may return that error or the exact answer; truncation before the last needed packet must give ErrPMTNotFound",
 		},
-		RequiredProbes: []string{"first_packet_payload_le3", "split_inside_header", "split_inside_descriptor", "split_before_crc", "pointer_gt0", "foreign_section_before", "interleaved", "af_len0_stuffing", "multi_packet_ge3", "section_len_ge_1000", "other_pmt_on_other_pid", "trailing_stuffing", "truncated_before_end", "zero_streams", "es_info_length_ge_256", "program_info_length_ge_256", "prelude_unit_on_pmt_pid", "pointer_255", "held_pmt_rechecked", "more_than_255_descriptors", "entry_starts_with_ff_ff_ff"},
+		RequiredProbes: []string{"first_packet_payload_le3", "split_inside_header", "split_inside_descriptor", "split_before_crc", "pointer_gt0", "foreign_section_before", "interleaved", "af_len0_stuffing", "multi_packet_ge3", "section_len_ge_1000", "other_pmt_on_other_pid", "trailing_stuffing", "truncated_before_end", "zero_streams", "es_info_length_ge_256", "program_info_length_ge_256", "prelude_unit_on_pmt_pid", "pointer_255", "held_pmt_rechecked", "more_than_255_descriptors", "entry_starts_with_ff_ff_ff", "pmt_after_70000_packets"},
 	}
 }
 
@@ -591,6 +592,31 @@ func (c06) Exec(script interface{}, c *core.Ctx) {
 			return
 		}
 	}
+	if s.Wire.Salt == 999 && len(w.pkts) > 0 {
+		// the same PMT packets behind 70 000 generated packets of another PID
+		far := 66000
+		var tail []byte
+		for i := range w.pkts {
+			tail = append(tail, w.pkts[i][:]...)
+		}
+		gr := io.MultiReader(&nullGen{left: far}, bytes.NewReader(tail))
+		var fpm psi.PMT
+		var ferr error
+		if !c.Call("psi.ReadPMT(long stream)", func() { fpm, ferr = psi.ReadPMT(gr, s.Wire.Carrier.PID) }) {
+			return
+		}
+		c.Probe("pmt_after_70000_packets")
+		if ferr != nil {
+			c.Fail("read_stream", "stream:pmt_far_into_the_stream_not_found", ferr, nil)
+			return
+		}
+		if d := comparePMT(c, fpm, s.PMT); d != "" {
+			if d != "panic" {
+				c.Fail("read_stream", "stream:long:"+clauseOf(d), d, "the abstract PMT")
+			}
+			return
+		}
+	}
 	c.Probe("held_pmt_rechecked")
 	if d := comparePMT(c, pm, s.PMT); d != "" {
 		if d != "panic" {
@@ -598,6 +624,26 @@ func (c06) Exec(script interface{}, c *core.Ctx) {
 		}
 		return
 	}
+}
+
+// nullGen yields `left` null packets (PID 0x1FFF) without storing them.
+type nullGen struct {
+	left int
+	cur  []byte
+}
+
+func (g *nullGen) Read(p []byte) (int, error) {
+	if len(g.cur) == 0 {
+		if g.left <= 0 {
+			return 0, io.EOF
+		}
+		g.left--
+		pk := parties.NullPacket(g.left)
+		g.cur = pk[:]
+	}
+	k := copy(p, g.cur)
+	g.cur = g.cur[k:]
+	return k, nil
 }
 
 func clauseOf(d string) string {
